@@ -57,6 +57,10 @@ def plan(tier, seed):
         # plain solvers only (thl <= lca) on deep species trees with a transfer twice as dear as a duplication
         for osh, ssh in spaces.shape_pairs(3, 6, min_obj=3, min_sp=6):
             out.append({"slice": "plain:P3x6", "mode": "plain", "osh": osh, "ssh": ssh, "costs": [(0, 1, 2, 1, 1)]})
+        # 5 object leaves, one family, general solver against SuperDTL only (a transferred child that is itself an ancestor)
+        for osh, ssh in spaces.shape_pairs(5, 3, min_obj=5, min_sp=3):
+            out.append({"slice": "single-family:P5x3/thl=superdtl", "mode": "single2", "osh": osh, "ssh": ssh,
+                        "costs": [(0, 1, 2, 1, 1)]})
         for ssh in spaces.binary_shapes(4):
             out.append({"slice": "single-family:P4balx4", "mode": "single", "osh": ((None, None), (None, None)), "ssh": ssh,
                         "costs": [core[0], cheap_hgt[0]]})
@@ -115,6 +119,13 @@ def relations(res, costs, single):
 
 def check(O, S, leafmap, leafsyn, costs, single, plain_only=False):
     strict = False
+    if plain_only == "thl_superdtl":
+        res, err = min_costs(O, S, leafmap, leafsyn, costs, "ANY", algos=("thl", "superdtl"))
+        if err:
+            return ("exception", err), False
+        if res["thl"] != res["superdtl"]:
+            return ("relation", f"single family: thl = {res['thl']}, superdtl = {res['superdtl']}"), True
+        return None, res["thl"] > 0
     for policy in ("ANY", "ALL"):
         res, err = min_costs(O, S, leafmap, leafsyn, costs, policy, algos=("lca", "thl") if plain_only else None)
         if err:
@@ -137,7 +148,7 @@ def run_shard(shard, tier, seed):
     else:
         gen = ((lm, {v: ("a",) for v in O.leaves}) for lm in spaces.assignments(O, S))
         single = True
-    plain_only = shard["mode"] == "plain"
+    plain_only = "thl_superdtl" if shard["mode"] == "single2" else shard["mode"] == "plain"
     for leafmap, leafsyn in gen:
         n_inputs += 1
         for costs in shard["costs"]:
